@@ -22,6 +22,11 @@ CLAIMED.update({
     'C18': (_TAB, '5 C18'),
     'C20': (_TAB + ' (DOT source parsed and compared with the labelled cover relation)', '5 C20'),
 })
+CLAIMED.update({
+    'C16': ('symbolic execution of the real junctors classifier on symbolic columns with a symbolic truth-pattern set model (paths = classes of occurring combinations); per-path SMT queries for kind, presence, orientation, order; printing on every path', '5 C16'),
+    'C17': ('nondeterministic environment stub for hash randomisation: every set built by repository code iterates in an explorer/solver-chosen order (load-time AST transform); transcripts compared over all orders; counterexamples replayed in separate processes under different PYTHONHASHSEED', '5 C17'),
+    'C19': ('symbolic execution of the real Context(...)/fromdict validation on inputs with solver-decided name aliasing (SymName), symbolic cells and symbolic column indexes; per path: unsat(pc and valid) on raising paths, pc implies valid and faithfulness on accepting paths', '5 C19'),
+})
 PENDING = {}
 NA = {
     'C12': 'text formats quantify over label strings, encodings, csv dialects and files: code is str methods, %-formatting, '
